@@ -88,9 +88,11 @@ def load_dxf(file_obj, **kwargs):
     cleaned = raw.replace(" ", "").strip().upper()
 
     # blob with spaces and original case
-    blob_raw = np.array(str.splitlines(raw)).reshape((-1, 2))
+    # use `object` arrays of strings: a fixed-width unicode array makes
+    # every line as wide as the longest (lines * longest line * 4 bytes)
+    blob_raw = np.array(str.splitlines(raw), dtype=object).reshape((-1, 2))
     # if this reshape fails, it means the DXF is malformed
-    blob = np.array(str.splitlines(cleaned)).reshape((-1, 2))
+    blob = np.array(str.splitlines(cleaned), dtype=object).reshape((-1, 2))
 
     # get the section which contains the header in the DXF file
     endsec = np.nonzero(blob[:, 1] == "ENDSEC")[0]
